@@ -52,7 +52,11 @@ func c15Gen(r *rand.Rand, tier string) []spec.Case {
 			}
 		}
 		if alive && r.Intn(2) == 0 {
-			steps = append(steps, fmt.Sprintf("kill:%d", r.Intn(nc)), "reattach")
+			if r.Intn(2) == 0 {
+				steps = append(steps, fmt.Sprintf("kill:%d", r.Intn(nc)), "reattach")
+			} else {
+				steps = append(steps, "sigkill", "reattach", "reattach2")
+			}
 		}
 		c.Steps = steps
 		out = append(out, spec.Case{Kind: "proc", P: spec.MustJSON(c)})
@@ -203,6 +207,8 @@ func c15Judge(c spec.Case, evs []spec.Event, d *Death) CaseResult {
 				}
 				res.Counters["testmode_kills"]++
 			}
+		case "sigkill":
+			alive = false
 		case "cancel":
 			if !s.ClosedCh {
 				viol("closech-not-closed", "CloseCh was not closed within 20 s of cancelling the test-mode context")
